@@ -107,6 +107,9 @@ CLAIMS["C14"]["technique"] = P_TECH + "; " + B_TECH
 CLAIMS["C14"]["note"] = TRUST + "networkx.set_node_attributes modelled for a uniform value; expand_excl / neighborhood (graph distances) are decided by the bounded unit only. Known finding K16."
 CLAIMS["C06"]["text"] = CLAIMS["C06"]["text"].split("'other' because")[0] + "Bounded: the real Backmap on 5.4k hand-made worlds (8 residue types incl. chiral and virtual-site ones x every labelled tree/ring on <= 4 residues x built/unbuilt neighbours x scripted and real optimiser angles x factors) and 404 gen_coords worlds (templates from the real GenerateTemplates incl. the failed-optimisation path): centre, proper rotation by Kabsch fit + signed volume, congruence of all copies, own-atom-name, untouched residues, shared templates unmodified."
 CLAIMS["C06"]["technique"] = P_TECH + "; " + B_TECH
+CLAIMS["C17"]["text"] = CLAIMS["C17"]["text"].replace("Bounded: 63k", "BuildSystem._handle_random_walk is proved to leave the engine EXACTLY as it was when a molecule is abandoned (every residue of the discarded attempts removed, supplied residues and all other molecules untouched) and to return a fully positioned molecule otherwise, for any number of retries (loop invariant; RandomWalk construction and run_molecule executed at the call site, _random_walk through its proved contract). Bounded: 63k")
+CLAIMS["C17"]["note"] = CLAIMS["C17"]["note"].replace("BuildSystem._handle_random_walk/_compose_system are decided by the bounded unit only.", "The engine shared between BuildSystem and the RandomWalk it constructs is an alias; pyvc has value semantics, so the sharing is made explicit by a ghost hook after the two statements that mutate it through the walker (A-ALIAS). _handle_random_walk is proved for rwargs = {} (RandomWalk defaults). BuildSystem._compose_system is decided by the bounded unit only.")
+CLAIMS["C04"]["text"] = CLAIMS["C04"]["text"].replace("(The random-walk side - supplied residues never touched, other molecules untouched - is proved in C17's units.)", "The clause 'a failed placement attempt never alters or discards supplied coordinates' is proved in C17's units (_random_walk: only residues of this molecule that have to be built may change; _handle_random_walk: an abandoned attempt restores the engine exactly).")
 NOT_CLAIMED = {}
 NOTES = ("See DESIGN.md. Properties listed under not_applicable with the reason 'check not finished' are unclaimed work in progress, "
          "not judged inapplicable. level 'other' everywhere: each check combines deductive units (counted in coverage.obligations/discharged) "
